@@ -279,7 +279,8 @@ func (eval *Evaluator) CoeffsToSlots(ctIn *rlwe.Ciphertext, ctsMatrices Matrix, 
 
 		// If repacking, then ct0 and ct1 right n/2 slots are zero.
 		if ctsMatrices.Format == RepackImagAsReal && ctsMatrices.LogSlots < eval.parameters.LogMaxSlots() {
-			if err = eval.Rotate(tmp, 1<<ctIn.LogDimensions.Cols, tmp); err != nil {
+			// The imaginary half is moved by the slot count of the matrices (the one the Galois keys are advertised for)
+			if err = eval.Rotate(tmp, 1<<ctsMatrices.LogSlots, tmp); err != nil {
 				return fmt.Errorf("cannot CoeffsToSlots: %w", err)
 			}
 
